@@ -125,6 +125,23 @@ var seedExpectations = []seedExpect{
 	{"C16-e", "C16", "names.fresh", "writeSamplerIndexBuffer"},
 	{"C18-e", "C18", "precedence.arraysize", "collectPSVResources"},
 	{"C19-e", "C08", "reset.complete", "Lowerer.localIsPtr"},
+	// sixth batch (-f)
+	{"C01-f", "C01", "accum.dropped", "spirv/internal/codegen.ExpressionEmitter.emitImageSample:imageOperandMask#1"},
+	{"C02-f", "C02", "cachekey.separator", "spirv/internal/codegen.Backend.getFuncType:key"},
+	{"C03-f", "C03", "dims.product", "hlsl/internal/codegen.Writer.writeEPArgInit:product(ep.Workgroup)#1"},
+	{"C04-f", "C12", "clone.fresh", "msl.applyPipelineConstants:Functions[].LocalVars"},
+	{"C05-f", "C05", "glsl.samplerprecision", "glsl/internal/codegen.Writer.writeExtraCombinedSamplerDecl:uniform#1"},
+	{"C06-f", "C06", "fold.step", "wgsl/internal/lower.Lowerer.tryFoldScalarMath:MathStep"},
+	{"C07-f", "C07", "array.extentorder", "hlsl/internal/codegen.Writer.writeArraySizes:extents"},
+	{"C08-f", "C08", "parse.headersemi", "wgsl/internal/parser.Parser.exprOrAssignStmt:semicolon"},
+	{"C10-f", "C10", "memo.nilresult", "msl/internal/codegen.Writer.getPassThroughGlobals:w.funcPassThroughGlobals"},
+	{"C11-f", "C11", "args.namerole", "wgsl/internal/lower.Lowerer.checkArgumentType:typeShapeMatches(arg,param)#1"},
+	{"C12-f", "C12", "reset.first", "spirv/internal/codegen.Backend.Compile:Reset"},
+	{"C13-f", "C13", "ptr.sharedcell", "ir.remapInlineStatementHandles:func-literal:&opt#1"},
+	{"C14-f", "C14", "override.converted", "ir.ProcessOverrides:resolvedValues"},
+	{"C15-f", "C15", "shape.indexlen", "hlsl/internal/codegen.Writer.getAccessMaxIndex/MatrixType"},
+	{"C16-f", "C16", "names.rawuse", "hlsl/internal/codegen.Writer.writeMatCx2StoreIfNeeded:Fprintf(fieldName)#1"},
+	{"C17-f", "C17", "bounds.sameslice", "hlsl/internal/codegen.Writer.writeEPOutputStruct:fragEP.Module.Types[arg.Type]#1"},
 	// hand-made positive controls (controls/)
 	{"globals-write", "C12", "globals.nowrite", "typeNameCache"},
 	{"rzsw-nomerge", "C02", "spirv.mergefirst", "emitImageLoadRZSW"},
